@@ -38,10 +38,10 @@ func (c14) Info(tier string) fw.Info {
 	n, m := tierNM(tier)
 	return fw.Info{
 		Level: "exploration",
-		Rule: fmt.Sprintf("programs built to be sensitive to map order (>= 3 modules with shared helper/global naming schemes, objects with 4..12 fields printed whole / as JSON / key lists / through any-objects, many locals and shadowing, scopes with up to 25 unused items, impl blocks with several capabilities and methods, rejected programs whose messages print object types, programs ending in fatal errors with stack traces, singletons, match, objects with 4..12 fields of which 2..4 cannot be encoded as JSON — ranges, functions, non-finite floats, directly / in lists / options / nested objects — passed to to_json / to_json_indent as typed objects, any-objects, in lists and inside other objects, JSON decoding under an object type with several offending members), the generated programs of hv/prog and the shipped examples/tests; "+
+		Rule: fmt.Sprintf("programs built to be sensitive to map order (>= 3 modules with shared helper/global naming schemes, objects with 4..12 fields printed whole / as JSON / key lists / through any-objects, many locals and shadowing, scopes with up to 25 unused items, impl blocks with several capabilities and methods, rejected programs whose messages print object types, programs ending in fatal errors with stack traces, singletons, match, objects with 4..12 fields of which 2..4 cannot be encoded as JSON — ranges, functions, non-finite floats, directly / in lists / options / nested objects — passed to to_json / to_json_indent as typed objects, any-objects, in lists and inside other objects, JSON decoding under an object type with several offending members, programs that write in place — option / list / string / number / nested-object fields — into objects whose storage the runtime handed out: default values of singletons of the entry and of an imported module, results of runtime casts, decoded JSON, and print every producer of `none` before and after, programs of 3..5 modules around a module that several others import with 1..4 lines carrying recoverable or critical syntax errors in the shared module / another imported module / the entry), the generated programs of hv/prog and the shipped examples/tests; "+
 			"each program is analysed twice, compiled, run on the VM and on the interpreter N=%d times in one process (fewer for programs that execute more than 200k steps), with an unrelated program reusing the same module names run in between, and once more in each of M=%d fresh processes; "+
 			"compared component-wise: syntax errors, sorted diagnostic multiset (level, message, span), the same with notes, VM outcome with the full message and stack trace, VM output, VM host-call log, the same three for the interpreter, canonical dump of the compiler output. "+
-			"non-trivial = at least 3 repetitions completed and the program produced >= 2 diagnostics or ran with >= 3 lines of output; distinct = distinct sources", n, m),
+			"non-trivial = at least 3 repetitions completed and the program produced >= 2 diagnostics (syntax errors included) or ran with >= 3 lines of output; distinct = distinct sources", n, m),
 		Assumptions: []string{
 			"Go draws a new random iteration start for every range over a map and a new hash seed per map, so N repetitions in one process sample N iteration orders. For maps with at most 8 entries Go only rotates the insertion order, so an order that is reached from a single start offset is seen with probability 1/8 per repetition: it escapes N=20 repetitions plus 6 fresh-process observations with probability (7/8)^25 = 3.5%, N=100 with 2e-6",
 			"wall-clock dependent programs (any use of `time.`) are excluded from the corpus",
@@ -395,6 +395,9 @@ func (c14) Run(c fw.Case) fw.Result {
 		diffs = append(diffs, diff{Comp: comp, Where: where, First: a, Other: b})
 	}
 	intra := func(ob *Observation, where string) {
+		if ob.SyntaxFirst != ob.SyntaxSecond {
+			note("syntax", where+", two analyses of the same repetition", ob.SyntaxFirst, ob.SyntaxSecond)
+		}
 		if ob.IntraDiags != "" {
 			note("diags", where+", two analyses of the same repetition", ob.Diags, ob.IntraDiags)
 		}
@@ -518,7 +521,7 @@ func (c14) Run(c fw.Case) fw.Result {
 	}
 
 	res.Evals = int64(reps + children)
-	res.Nontrivial = reps >= 3 && (strings.Count(first.Diags, "\n")+1 >= 2 && first.Diags != "" || first.Ran && first.VMLines >= 3)
+	res.Nontrivial = reps >= 3 && (lineCount(first.Diags)+lineCount(first.Syntax) >= 2 || first.Ran && first.VMLines >= 3)
 	res.Obs["repetitions"] = int64(reps)
 	res.Obs["interferer_runs"] = int64(altRuns)
 	res.Obs["vm_steps_plus_tree_steps"] = first.Steps * int64(reps)
@@ -554,6 +557,14 @@ func (c14) Run(c fw.Case) fw.Result {
 	if c.HasTag(TagJsonMixed) {
 		res.Cover = append(res.Cover, "construct:"+TagJsonMixed)
 	}
+	for _, t := range c.Tags {
+		if strings.HasPrefix(t, "cell-") || strings.HasPrefix(t, "syn-") {
+			res.Cover = append(res.Cover, "construct:"+t)
+		}
+	}
+	if first.Syntax != "" {
+		res.Cover = append(res.Cover, "syntax-errors")
+	}
 	for _, k := range cover {
 		res.Cover = append(res.Cover, "gen:"+k)
 	}
@@ -573,6 +584,13 @@ func (c14) Run(c fw.Case) fw.Result {
 		res.Sample = map[string]any{"family": p.Fam, "modules": drive.SortedKeys(src), "main": util.Clip(src["main"], 700), "vm_outcome": util.Clip(first.VMOutcome, 200), "diagnostics": len(strings.Fields(strings.ReplaceAll(first.Diags, " ", "_"))), "repetitions": reps, "fresh_processes": children}
 	}
 	return res
+}
+
+func lineCount(s string) int {
+	if s == "" {
+		return 0
+	}
+	return strings.Count(s, "\n") + 1
 }
 
 func outcomeClass(s string) string {
